@@ -42,7 +42,7 @@ MAX_FNS = {'np.maximum', 'np.max', 'max', 'np.nanmax', 'np.fmax', 'np.amax'}
 
 def run(ctx: Ctx):
   m = model(ctx)
-  for r in (r1, r2, r3, r4, r5, r6, r7, r10, r11, r12, r13):
+  for r in (r1, r2, r3, r4, r5, r6, r7, r10, r11, r12, r13, r14):
     ctx.guard(r, m)
   ctx.include('R-C01-8', 'merge leaves its operand intact and shares no'
               ' mutable state with it (R-C11-1, R-C11-2): a shard state that'
@@ -904,11 +904,125 @@ def r13(ctx: Ctx, m):
   ctx.floor(rule, 3, n)
 
 
+def r14(ctx: Ctx, m):
+  rule = 'R-C01-14'
+  ctx.rule(rule, '"a metric value for one example never depends on which other examples share its'
+           ' batch": the cut-offs a top-k metric is evaluated at (`k_list`) are a function of the'
+           ' CONFIGURATION only. In every function of the retrieval / classification aggregates'
+           ' that works with k_list, no extent of the batch (len(...) / .shape of the data, and'
+           ' anything computed from it) flows into (a) a re-definition of the k list that is then'
+           ' used as an index, or (b) the bound of the loop that produces the per-k results —'
+           ' except on the branch where no k_list is configured. A batch-dependent k dimension'
+           ' gives per-batch statistics of different lengths: accumulating them raises or'
+           ' silently broadcasts')
+  repo = ctx.repo
+  n = 0
+  from mlmverif.core import parent_map
+  for mod in ('aggregates.retrieval', 'aggregates.classification'):
+    mi = repo.module(mod)
+    fns = list(mi.functions.values()) + [m_ for c in mi.classes.values() for m_ in c.methods.values()]
+    for fi in fns:
+      names = {y.id for y in ast.walk(fi.node) if isinstance(y, ast.Name)}
+      uses_k = 'k_list' in names or any(is_self_attr(y, 'k_list') for y in ast.walk(fi.node))
+      if not uses_k:
+        continue
+      pm = parent_map(fi.node)
+
+      def unconfigured_branch(x):
+        """x sits where no k_list is configured (else of `if self.k_list` / `if k_list`)."""
+        prev, q = x, pm.get(x)
+        while q is not None and q is not fi.node:
+          if isinstance(q, (ast.If, ast.IfExp)):
+            t = unparse(q.test)
+            neg = isinstance(q.test, ast.UnaryOp) and isinstance(q.test.op, ast.Not)
+            if t.replace('not ', '').strip('()') in ('self.k_list', 'k_list'):
+              in_else = (prev in q.orelse) if isinstance(q, ast.If) else (prev is q.orelse)
+              in_body = (prev in q.body) if isinstance(q, ast.If) else (prev is q.body)
+              if (in_else and not neg) or (in_body and neg):
+                return True
+          prev, q = q, pm.get(q)
+        return False
+
+      def extent_source(e):
+        for y in ast.walk(e):
+          if isinstance(y, ast.Call) and unparse(y.func) == 'len' and y.args and 'k_list' not in unparse(y.args[0]):
+            return True
+          if isinstance(y, ast.Name) and y.id == 'len' and isinstance(pm.get(y), ast.Call) and pm.get(y).func is not y:
+            return True   # map(len, rows)
+          if isinstance(y, ast.Attribute) and y.attr == 'shape':
+            return True
+        return False
+
+      tainted: set[str] = set()
+      kder: set[str] = {'k_list'}
+      for _ in range(4):
+        for x in ast.walk(fi.node):
+          if isinstance(x, ast.Assign) and not unconfigured_branch(x):
+            tg = set()
+            for tt in x.targets:
+              for t in (tt.elts if isinstance(tt, (ast.Tuple, ast.List)) else [tt]):
+                if isinstance(t, ast.Name):
+                  tg.add(t.id)
+            vals = x.value
+            # an IfExp whose else is the unconfigured case: only the configured arm counts
+            if isinstance(vals, ast.IfExp) and unparse(vals.test).strip('()') in ('self.k_list', 'k_list'):
+              vals = vals.body
+            vn = {y.id for y in ast.walk(vals) if isinstance(y, ast.Name)}
+            if extent_source(vals) or (vn & tainted):
+              tainted |= tg
+            if (vn & kder) or any(is_self_attr(y, 'k_list') for y in ast.walk(vals)):
+              kder |= tg
+      n += 1
+      bad = None
+      # (a) a k-derived variable that is also batch-tainted and used as an index
+      idx_names = {y.id for s_ in ast.walk(fi.node) if isinstance(s_, ast.Subscript) for y in ast.walk(s_.slice)
+                   if isinstance(y, ast.Name)}
+      # ... or handed to the helpers that index with it
+      idx_names |= {a_.id for c_ in ast.walk(fi.node) if isinstance(c_, ast.Call)
+                    and not (isinstance(c_.func, ast.Name) and c_.func.id in ('len', 'min', 'max', 'sorted', 'list', 'set'))
+                    and not unparse(c_.func).startswith(('np.', 'logging.'))
+                    for a_ in list(c_.args) + [k_.value for k_ in c_.keywords] if isinstance(a_, ast.Name)}
+      both = (tainted & kder & idx_names)
+      if both:
+        def first_line(v_):
+          return min((x.lineno for x in ast.walk(fi.node) if isinstance(x, ast.Assign) and any(
+              isinstance(t, ast.Name) and t.id == v_ for tt in x.targets for t in (
+                  tt.elts if isinstance(tt, (ast.Tuple, ast.List)) else [tt])) and not unconfigured_branch(x)), default=10**9)
+        v = min(both, key=first_line)
+        bad = (next(x for x in ast.walk(fi.node) if isinstance(x, ast.Assign) and any(
+            isinstance(t, ast.Name) and t.id == v for tt in x.targets for t in (
+                tt.elts if isinstance(tt, (ast.Tuple, ast.List)) else [tt])) and not unconfigured_branch(x)),
+               f'`{v}` — the k values the statistics are indexed by — is recomputed from the batch')
+      # (b) per-k loop bound
+      for lp in ast.walk(fi.node):
+        if isinstance(lp, ast.For) and isinstance(lp.iter, ast.Call) and unparse(lp.iter.func) == 'range':
+          per_k = any(isinstance(y, ast.Compare) and any(isinstance(o, ast.In) for o in y.ops) and 'k_list' in unparse(y)
+                      for y in ast.walk(lp)) and any(isinstance(y, (ast.Yield, ast.Return)) or (
+                          isinstance(y, ast.Call) and isinstance(y.func, ast.Attribute) and y.func.attr == 'append')
+                          for y in ast.walk(lp))
+          bn = {y.id for a_ in lp.iter.args for y in ast.walk(a_) if isinstance(y, ast.Name)}
+          if per_k and ((bn & tainted) or any(extent_source(a_) for a_ in lp.iter.args)):
+            bad = (lp, f'the loop that produces one result per k runs to `{unparse(lp.iter)[:40]}`, which depends on the batch')
+      if bad:
+        ctx.fail(rule, fi, f'{fi.qualname}: the evaluated k values depend on the configuration only',
+                 f'{bad[1]} (row lengths of the data): a batch of short rankings yields fewer k entries than a'
+                 ' batch of long ones, so the same examples give different state shapes depending on how they'
+                 ' are batched — accumulating / merging them raises ValueError or broadcasts silently',
+                 node=bad[0])
+      else:
+        ctx.ok(rule, fi, f'{fi.qualname}: k values come from the configuration', fi.node)
+  ctx.floor(rule, 3, n)
+
+
 from mlmverif.selfcheck import B, OK  # noqa: E402
 
 _R = 'aggregates/rolling_stats.py'
 _C = 'aggregates/classification.py'
 VARIANTS = [
+    B('vocab-at-k-stops-at-longest-row', _C,
+      '  for j in range(max(k_list)):', '  max_k = min(max(k_list), max(map(len, rows), default=0))\n  for j in range(max_k):', 'R-C01-14'),
+    OK('vocab-at-k-bound-through-local', _C,
+       '  for j in range(max(k_list)):', '  max_k = max(k_list)\n  for j in range(max_k):'),
     B('merge-skips-operand-without-ground-truth', 'aggregates/retrieval.py',
       '  def merge(self, other: ThresholdedRetrieval):\n    self._confusion_matrix.merge(other.confusion_matrix)',
       '  def merge(self, other: ThresholdedRetrieval):\n    if not other.confusion_matrix.p_trues:\n      return\n    self._confusion_matrix.merge(other.confusion_matrix)',
